@@ -1,0 +1,30 @@
+//go:build verif
+
+package macat
+
+import (
+	"bytes"
+	"io"
+
+	"go.nanomsg.org/mangos/v3"
+)
+
+// VerifFormat runs the real printMsg on a message with the given body and
+// returns what it wrote.  Verification hook; not part of normal builds.
+func VerifFormat(format string, body []byte) []byte {
+	a := &App{}
+	a.Initialize()
+	buf := &bytes.Buffer{}
+	a.stdOut = buf
+	a.printFormat = format
+	m := mangos.NewMessage(len(body))
+	m.Body = append(m.Body, body...)
+	a.printMsg(m)
+	m.Free()
+	return buf.Bytes()
+}
+
+// VerifSetStdout redirects the application's output.
+func (a *App) VerifSetStdout(w io.Writer) {
+	a.stdOut = w
+}
